@@ -269,7 +269,10 @@ def worker(spec):
                 if i % spec['nshards'] == spec['shard']:
                     progs.append(p)
         progs += list(progen.random_programs(rng, spec['random_n'], size=spec.get('size', 12)))
-        fam = list(progen.binding_scenario_programs()) + list(progen.raise_handler_programs(info=info))
+        # the binding-construct scenarios are few: all of them in every run; the raise/handler family is stepped in quick
+        bfam = list(progen.binding_scenario_programs())
+        progs += [p for i, p in enumerate(bfam) if i % spec['nshards'] == spec['shard']]
+        fam = list(progen.raise_handler_programs(info=info))
         step = spec.get('family_step', 1)
         progs += [p for i, p in enumerate(fam) if i % spec['nshards'] == spec['shard'] and (i // spec['nshards']) % step == spec['seed'] % step]
         # interleave the families so that a time budget cuts all of them evenly
